@@ -4,7 +4,11 @@ Nothing in this package imports or executes code from /repo: sources are parsed 
 ``ast`` and modelled.
 """
 
-REPO = "/repo"
+import os as _os
+
+# the tree under analysis; SA_REPO / SA_OUT_DIR redirect a development run (dev/simrepo.py) without touching /repo or the
+# committed evidence -- the registered commands never set them
+REPO = _os.environ.get("SA_REPO", "/repo")
 PKG = "selfies"
 
 
